@@ -278,3 +278,74 @@ func containsQ(s string) bool {
 	}
 	return false
 }
+
+// slowUpload: an upload that takes longer than the grace period (kept alive by its own chunks), completed just now,
+// is recent content: a collection right after the acknowledgement must not remove it, in a quiet repository either.
+// One-sided timing: the verdict is only taken if the collection finished less than 0.8 x grace after the completing
+// PUT *started* (whatever instant of that request the store takes as the blob's time, its age is then below the
+// grace period); otherwise the trial counts as too slow and decides nothing.
+func slowUpload(r *vh.Run, i int) {
+	kind := []vh.StoreKind{vh.Mem, vh.Dir, vh.MemDir}[i%3]
+	root := ""
+	if kind != vh.Mem {
+		root = r.TempDir("slow")
+		defer vh.RemoveAll(root)
+	}
+	grace := 1200 * time.Millisecond
+	pol := vh.Policy{Untagged: i%2 == 0, Dangling: true, WithSubj: true, EmptyRepo: false, Grace: grace}
+	srv := vh.New(vh.Conf(kind, root, pol))
+	defer srv.Close()
+	finalBody := (i/3)%2 == 0
+	wit := map[string]any{"trial": i, "store": kind.String(), "grace": grace.String(), "completing_put_carries_data": finalBody}
+	rs := vh.Do(srv, vh.Req{Method: "POST", URL: "/v2/q/blobs/uploads/"})
+	loc := rs.H.Get("Location")
+	if rs.Status != 202 || loc == "" {
+		return
+	}
+	var content []byte
+	// five chunks, a third of the grace period apart: 1.3 x grace in all, never idle for as long as the grace period
+	for k := 0; k < 5; k++ {
+		chunk := []byte(fmt.Sprintf("chunk %d of slow upload %d;", k, i))
+		ps := vh.Do(srv, vh.Req{Method: "PATCH", URL: loc, Body: chunk})
+		if ps.Status != 202 || ps.H.Get("Location") == "" {
+			r.Count("slow_upload_not_established", 1)
+			return
+		}
+		loc = ps.H.Get("Location")
+		content = append(content, chunk...)
+		if k < 4 {
+			time.Sleep(grace / 3)
+		}
+	}
+	var last []byte
+	if finalBody {
+		last = []byte("the end")
+		content = append(content, last...)
+	} else {
+		time.Sleep(grace / 3)
+	}
+	d := vh.DigestOf("sha256", content)
+	sep := "&"
+	if !containsQ(loc) {
+		sep = "?"
+	}
+	t0 := time.Now()
+	put := vh.Do(srv, vh.Req{Method: "PUT", URL: loc + sep + "digest=" + d, Body: last})
+	if put.Status != 201 {
+		r.Count("slow_upload_not_established", 1)
+		return
+	}
+	_ = srv.VerifGC(context.Background(), "q")
+	el := time.Since(t0)
+	r.Count("slow_upload_trials", 1)
+	if el > grace*8/10 {
+		r.Count("slow_upload_trials_too_slow_to_decide", 1)
+		return
+	}
+	g := vh.Do(srv, vh.Req{Method: "GET", URL: "/v2/q/blobs/" + d})
+	if g.Status != 200 || string(g.Body) != string(content) {
+		wit["from_put_start_to_collection_end"] = el.String()
+		r.Violation("recent-upload-collected", fmt.Sprintf("an upload that took 1.3-1.6 x the grace period (%s) was completed (201) and a collection %s after the completing request started removed it: GET answers %d (%s store)", grace, el, g.Status, kind), wit)
+	}
+	r.Distinct("slow_upload_cells", fmt.Sprintf("%s/%v/%v", kind, finalBody, pol.Untagged))
+}
